@@ -58,6 +58,16 @@ def creation_and_conversion(L, db, c, qt, u, fu, x=1.5):
     M("FixedArray", lambda: FixedArray(2, c, [x, 2.0], fu), case)
     M("FractionScalar", lambda: FractionScalar(c, x, fu), case)
     M("ObtainQuantity", lambda: ObtainQuantity(fu, c), case)
+    # a unit system that names, for this category, a unit of another quantity type (nothing checks a mapping when it is registered):
+    # re-expressing an amount "in the current system" is a conversion to that unit
+    from barril.units.unit_system_manager import UnitSystemManager
+
+    usm = UnitSystemManager()
+    usm.AddUnitSystem("c05", "a system with a foreign unit", {c: fu})
+    s_ = Scalar(c, x, u)
+    M("UnitSystemManager.ConvertToCurrent (system maps the category to a foreign unit)", lambda: usm.ConvertToCurrent(c, u, x), case)
+    M("UnitSystemManager.ConvertToCurrent(list) (system maps the category to a foreign unit)", lambda: usm.ConvertToCurrent(c, u, [x, 2.0]), case)
+    M("UnitSystemManager.ConvertScalarToCurrent (system maps the category to a foreign unit)", lambda: usm.ConvertScalarToCurrent(s_), case, (s_,))
     M("Quantity(c,u)", lambda: Quantity(c, fu), case)
     M("Quantity.CreateDerived", lambda: Quantity.CreateDerived(OrderedDict([(c, [fu, 2])])), case)
     oc, ou = ("time", "s") if c != "time" else ("length", "m")
